@@ -778,38 +778,51 @@ _probe = st.fixed_dictionaries({
 })
 
 
+def _rot(draw, seq, salt):
+    """An element of seq; the all-minimal draw (which Hypothesis tries first in every shard) gives a
+    different element per shard."""
+    return seq[(draw(st.integers(0, len(seq) - 1)) + salt) % len(seq)]
+
+
+_SCALES = ['medium', 'small', 'large', 'small', 'medium', 'tiny', 'medium', 'large', 'small']
+_KIND_POOL = ['record-g', 'enum-gd', 'class-xparent', 'function', 'record-xref', 'enum-d'] + KIND_NAMES
+
+
 @st.composite
-def _case(draw, cap):
-    scale = draw(st.sampled_from(['tiny', 'small', 'small', 'small', 'medium', 'medium', 'medium', 'large', 'large']))
+def _case(draw, cap, salt=0):
+    scale = _rot(draw, _SCALES, salt)
     lo, hi = {'tiny': (1, 6), 'small': (7, 49), 'medium': (50, 400), 'large': (401, cap)}[scale]
     hi = min(hi, cap)
     lo = min(lo, hi)
-    target = draw(st.integers(lo, hi))
+    target = lo + (draw(st.integers(0, hi - lo)) + 37 * salt) % (hi - lo + 1)
     fams = []
     if scale in ('medium', 'large'):
         # one family carries the bulk so that the size class is reached
-        bulk = draw(st.sampled_from(['seq', 'seq', 'hash']))
+        bulk = _rot(draw, ['seq', 'hash', 'seq'], salt)
         if bulk == 'seq':
             fams.append({'f': 'seq', 'pre': draw(_pre), 'suf': draw(_suf), 'start': draw(st.sampled_from([0, 1, 95, 65530])),
-                         'count': target, 'base': draw(st.sampled_from([10, 16, 36])), 'pad': draw(st.sampled_from([0, 6]))})
+                         'count': target, 'base': _rot(draw, [10, 16, 36], salt), 'pad': draw(st.sampled_from([0, 6]))})
         else:
-            fams.append({'f': 'hash', 'seed': draw(st.integers(0, 2 ** 32)), 'count': target, 'len': draw(st.sampled_from([3, 8, 12, 24]))})
+            fams.append({'f': 'hash', 'seed': draw(st.integers(0, 2 ** 32)), 'count': target, 'len': _rot(draw, [8, 3, 12, 24], salt)})
         extra = draw(st.lists(_family(min(target, 80)), min_size=0, max_size=3))
     else:
         extra = draw(st.lists(_family(target), min_size=1, max_size=3))
+        # make sure the size class is reached when the drawn families are small
+        fams.append({'f': 'hash', 'seed': salt, 'count': target, 'len': _rot(draw, [2, 6, 1, 12], salt)})
     fams = extra + fams if draw(st.booleans()) else fams + extra
-    ns = draw(st.sampled_from(NS_NAMES))
-    dep_ns = draw(st.sampled_from([x for x in DEP_NS_NAMES if x != ns]))
-    kinds = draw(st.lists(st.sampled_from(KIND_NAMES + ['function', 'record-g', 'enum-gd', 'class-xparent', 'record-xref', 'enum-d']),
-                          min_size=1, max_size=8))
-    dep_names = draw(st.lists(st.one_of(_ident_lower, st.sampled_from(['Obj', 'Rec', 'a', 'A', 'item0', 'item1', 'new', '0'])),
-                              min_size=1, max_size=5, unique=True))
+    ns = _rot(draw, NS_NAMES, salt)
+    dep_ns = _rot(draw, [x for x in DEP_NS_NAMES if x != ns], salt)
+    kinds = [_KIND_POOL[(k + 5 * salt + 3 * j) % len(_KIND_POOL)]
+             for j, k in enumerate(draw(st.lists(st.integers(0, len(_KIND_POOL) - 1), min_size=2, max_size=8)))]
+    dep_names = draw(st.lists(st.one_of(st.sampled_from(['Obj', 'Rec', 'a', 'A', 'item0', 'item1', 'new', '0']), _ident_lower),
+                              min_size=2, max_size=5, unique=True))
     return {
-        'ns': ns, 'prefixes': draw(st.sampled_from(PREFIX_SETS)), 'families': fams, 'cap': cap, 'kinds': kinds,
-        'gstyles': draw(st.lists(st.sampled_from(GSTYLES), min_size=1, max_size=4)),
-        'dstyles': draw(st.lists(st.sampled_from(DSTYLES), min_size=1, max_size=3)),
+        'ns': ns, 'prefixes': _rot(draw, PREFIX_SETS, salt), 'families': fams, 'cap': target if scale in ('tiny', 'small') else cap,
+        'kinds': kinds,
+        'gstyles': [_rot(draw, GSTYLES, salt + j) for j in range(draw(st.integers(1, 4)))],
+        'dstyles': [_rot(draw, DSTYLES, salt + j) for j in range(draw(st.integers(1, 3)))],
         'dep': {'ns': dep_ns, 'names': dep_names,
-                'gdecoys': draw(st.lists(st.integers(0, 70000), min_size=0, max_size=4)),
+                'gdecoys': draw(st.lists(st.integers(0, 70000), min_size=1, max_size=4)),
                 'ddecoys': draw(st.lists(st.integers(0, 70000), min_size=0, max_size=2))},
         'probes': draw(st.lists(_probe, min_size=0, max_size=10)),
         'pseed': draw(st.integers(0, 2 ** 32)), 'pn': draw(st.integers(20, 150)),
@@ -844,7 +857,7 @@ def run_shard(ctx, spec):
     if spec.get('big'):
         ctx.run_case(_big_case(spec['big'], spec['seed']), reraise=False)
     if spec['n']:
-        ctx.hyp(_case(spec['cap']), spec['n'])
+        ctx.hyp(_case(spec['cap'], ctx.shard), spec['n'])
 
 
 def health(agg, tier):
